@@ -33,6 +33,10 @@ func c14Jobs(cases []*lab.Case, lo, n, perJob int, mixed bool, rot int) []proto.
 		if j%4 == 3 {
 			v = "v3"
 		}
+		if j%5 == 2 {
+			// a parser without AST runs its actions during the parse: other state, same promise
+			v = "n0"
+		}
 		var steps []proto.Step
 		for k := 0; k < perJob; k++ {
 			in := cs.Inputs[(j*5+k*3+rot)%len(cs.Inputs)]
@@ -66,7 +70,7 @@ func c14Jobs(cases []*lab.Case, lo, n, perJob int, mixed bool, rot int) []proto.
 }
 
 func evalConc(c *drv.Ctx, cases []*lab.Case, sets [][]proto.Job, procs []int, stats bool) ([]string, error) {
-	l, err := lab.Build(c, cases, []lab.Variant{lab.V0, lab.V3}, lab.Options{Race: true})
+	l, err := lab.Build(c, cases, []lab.Variant{lab.V0, lab.V3, lab.N0}, lab.Options{Race: true})
 	if err != nil {
 		return nil, err
 	}
@@ -254,7 +258,7 @@ func init() {
 		return "", nil
 	})
 	drv.Register("C14",
-		"12 (quick) / 60 (thorough) well-formed grammars, default and -inline -switch parsers built into one binary with the race detector; job sets of 8 goroutines over one parser and of 16 goroutines over two different parsers, each goroutine owning one instance (Init with option values shared between goroutines: Size(64), DisableMemoize, Pretty, none) and running 3-4 Reset/Parse/Execute/Sprint/Error steps (one in three followed by a second Parse of another rule without Reset) behind a common barrier, repeated under GOMAXPROCS 2, 4 and 16; every concurrent job set is the first thing a fresh process does (lazily built package state is cold); every observation (incl. AST().PrettyPrint into a private buffer in Pretty mode) must equal the same parse run alone in the same binary, the race detector must stay silent and the worker must survive. Every job set is non-trivial (>=8 concurrent instances); distinct = (job set, GOMAXPROCS).",
+		"12 (quick) / 60 (thorough) well-formed grammars, default, -inline -switch and -noast parsers built into one binary with the race detector; job sets of 8 goroutines over one parser and of 16 goroutines over two different parsers, each goroutine owning one instance (Init with option values shared between goroutines: Size(64), DisableMemoize, Pretty, none) and running 3-4 Reset/Parse/Execute/Sprint/Error steps (one in three followed by a second Parse of another rule without Reset) behind a common barrier, repeated under GOMAXPROCS 2, 4 and 16; every concurrent job set is the first thing a fresh process does (lazily built package state is cold); every observation (incl. AST().PrettyPrint into a private buffer in Pretty mode) must equal the same parse run alone in the same binary, the race detector must stay silent and the worker must survive. Every job set is non-trivial (>=8 concurrent instances); distinct = (job set, GOMAXPROCS).",
 		[]string{
 			"schedules are sampled by the Go scheduler, not enumerated; the race detector is happens-before based, so an unsynchronised conflicting pair is flagged whenever both accesses execute",
 			"PrintSyntaxTree / PrettyPrintSyntaxTree write to the process-wide standard output: they are called concurrently (output to /dev/null) for the race detector and for panics, their text is compared only in the sequential checks (C05, C12)",
